@@ -4,4 +4,10 @@
 #[cfg(kani)]
 pub mod c16;
 #[cfg(kani)]
+pub mod c09;
+#[cfg(all(kani, ascent_verif))]
+pub mod c16_sets;
+#[cfg(kani)]
 pub mod c17;
+#[cfg(kani)]
+pub mod c17w;
